@@ -145,6 +145,18 @@ func conv[U Uint](n *node[U]) []*ref.Node {
 }
 
 func (a *ad[U]) Tree() []*ref.Node { return conv(a.p.AST()) }
+
+// ASTOf runs the real AST() on a token list given in neutral form (rule 1 for every token).
+func ASTOf(b, e []int) []*ref.Node {
+	var ts tokens[uint32]
+	for i := range b {
+		ts.tree = append(ts.tree, token[uint32]{pegRule: 1, begin: uint32(b[i]), end: uint32(e[i])})
+	}
+	return conv(ts.AST())
+}
+
+// RuleName is the name of rule constant 1.
+func RuleName() string { return rul3s[1] }
 func (a *ad[U]) Sprint() string    { return a.p.SprintSyntaxTree() }
 func (a *ad[U]) BufferLen() int    { return len(a.p.buffer) }
 `
@@ -451,7 +463,13 @@ func registerGramChecks() {
 		prop, mk := prop, mk
 		checks[prop] = func(c *Ctx) error {
 			fam, spec := mk(c)
-			return runGrammarProperty(c, fam, spec)
+			if err := runGrammarProperty(c, fam, spec); err != nil {
+				return err
+			}
+			if prop == "C13" && !c.Quick() {
+				return runReal(c)
+			}
+			return nil
 		}
 		replayers[prop] = func(ws *Workspace, f *Finding) (*ReplayOutcome, error) { return replayGrammar(ws, prop, mk, f) }
 	}
